@@ -549,6 +549,45 @@ func runC03(p *core.Prog, r *core.Report, tier string) {
 	nK := checkEpochPairing(p, r, ds, "C03.k", []string{"scheduleAttestations", "scheduleProposals", "scheduleSyncCommitteeMessages", "subscribeToBeaconCommittees"},
 		"jobs of epoch %s are set up from the validators obtained for epoch %s: a validator that differs between the two epochs (activating, exiting) gets no job, or a job it should not have")
 	r.Floor("C03.k scheduling calls with locally obtained validators", nK, 6)
+
+	// ---- (l) one job per name: the controller schedules each duty slot under a fixed name and relies on the
+	// scheduler refusing a second job of that name; the refusal is only sound if the name test and the insert
+	// are one critical section ----
+	{
+		jobsField := core.FieldID{Owner: schedRel + ".Service", Name: "jobs"}
+		nAt := 0
+		for _, f := range p.FuncsIn(schedRel) {
+			nAt += checkTestAndSetAtomic(p, r, la, "C03.l", f, jobsField,
+				"two overlapping schedulings of one duty slot (two head events in quick succession, a refresh overlapping the epoch preparation) are both accepted, and the slot is attested or proposed twice", true)
+		}
+		r.Floor("C03.l scheduler name test/insert pairs", nAt, 2)
+	}
+
+	// ---- (m) the current slot and epoch are the ones that have started: elapsed time is truncated, never rounded
+	// (rounded up, "now" lies before the start of the "current" slot, and the job for that slot is never made) ----
+	{
+		nTime, nRound := 0, 0
+		for _, f := range p.FuncsIn("services/chaintime/standard") {
+			core.EachInstr(f, func(in ssa.Instruction) {
+				c, ok := in.(*ssa.Call)
+				if !ok {
+					return
+				}
+				n := core.CalleeName(&c.Call)
+				if strings.HasSuffix(n, "time.Since") || strings.HasSuffix(n, "time.Now") || strings.HasSuffix(n, "time.Time.Sub") {
+					nTime++
+				}
+				if strings.HasSuffix(n, "time.Duration.Round") || strings.HasSuffix(n, "time.Time.Round") || strings.HasSuffix(n, "math.Round") || strings.HasSuffix(n, "math.Ceil") || strings.HasSuffix(n, "math.RoundToEven") {
+					nRound++
+					r.Violate("C03.m", fmt.Sprintf("%s|rounds-time#%d", core.FnKey(f), nRound), p.Pos(c.Pos()), "the chain time service rounds a time or duration ("+n+"): in the last part of a slot the current slot/epoch is already reported as the next one, so a start-up or refresh at that moment treats the next slot as under way and never creates its job")
+				}
+			})
+		}
+		if nRound == 0 {
+			r.Hold("C03.m", "chaintime|elapsed-time-truncated", "", fmt.Sprintf("%d clock readings in the chain time service, none rounded", nTime))
+		}
+		r.Floor("C03.m clock readings in the chain time service", nTime, 2)
+	}
 	// handlers refresh the right epochs
 	if f := p.Func(ctrlRel, "Service", "handleCurrentDependentRootChanged"); f != nil {
 		for _, ci := range core.Calls(f, func(c *ssa.CallCommon) bool {
